@@ -359,6 +359,11 @@ func c16Run(t *testing.T, r *verifsim.Run) {
 			r.Logf("release %s", p.Label)
 		case "cancel-handler":
 			h := liveH[tp.Choose("cancel-handler", len(liveH))]
+			for _, p := range parked {
+				if p.Label[:3] == fmt.Sprintf("h%02d", h.id) {
+					r.Probe("cancel-while-handler-parked")
+				}
+			}
 			h.cancel()
 			h.cancelReq = true
 			synctest.Wait()
